@@ -785,6 +785,8 @@ def _argument_key(value):
         return (type(value), tuple(_argument_key(x) for x in value))
     if isinstance(value, _StringLiteral):
         return (_StringLiteral, str(value), value._parse_function)
+    if isinstance(value, _ByteLiteral):
+        return (_ByteLiteral, int(value), value._parse_function)
     return (type(value), value)
 
 
@@ -828,11 +830,11 @@ def _run(${ctx}text, pos, start, fullparse):
                 memo[key] = result
             continue
 
-        # A string literal passed as an argument is a string that can be called:
-        # the same text may be matched in different ways (a grammar that extends
-        # another one may skip ignored tokens after it).
+        # A string or byte literal passed as an argument is a value that can be
+        # called: the same text may be matched in different ways (a grammar that
+        # extends another one may skip ignored tokens after it).
         key = result
-        if key[1].__class__ is _StringLiteral:
+        if key[1].__class__ in (_StringLiteral, _ByteLiteral):
             key = (key[0], key[1]._parse_function, key[2])
 
         # The arguments of a parameterised rule are part of the key, and they
